@@ -89,10 +89,19 @@ pub fn walk_args(input: &Value, files0: Option<&std::path::Path>) -> Vec<String>
             sel.push(p.clone());
         }
         sel.push(")".into());
-        match form % 3 {
+        match form % 4 {
             0 => {
                 a.extend(sel);
                 a.push("-prune".into());
+                a.push(",".into());
+                a.push("-print0".into());
+            }
+            // a test written after -prune is evaluated after it: that it is false there takes nothing back
+            3 => {
+                a.extend(sel);
+                a.push("-prune".into());
+                a.push("-name".into());
+                a.push("no such name".into());
                 a.push(",".into());
                 a.push("-print0".into());
             }
@@ -309,6 +318,11 @@ impl Prop for PWalk {
             }
             if self.flavour == "C18" && rng.chance(1, 5) {
                 roots.push(json!({"spell": str_to_json("missing"), "node": 0}));
+                continue;
+            }
+            if self.flavour == "C18" && !use_files0 && rng.chance(1, 10) {
+                // an empty operand (an unset shell variable): a starting point that cannot be examined, like a missing one
+                roots.push(json!({"spell": [], "node": 0}));
                 continue;
             }
             let t = *rng.pick(&tops);
